@@ -432,6 +432,8 @@ def inline_one(F, cid, G, serial):
             n["dk"] = "local"
         n["inl"] = G["name"]
         n["ifile"] = gfile
+        if G.get("noinline"):
+            n["inl_noinline"] = True      # the compiler keeps this code in a separate, opaque function
         nodes.append(n)
     # a parameter that is only ever read, bound to a constant argument: its reads are that constant
     for p, a in zip(G["params"], args):
